@@ -7,7 +7,8 @@
          judged by ChildFirstJudge.tla (property) and compared with the Model's walk function (divergence only).
   C->S : recorded call/return histories of real concurrent runs (consumer + canceller goroutine) validated against
          ChildFirstTrace.tla (Model actions, unlogged internal steps chosen by TLC, Judge invariants in every state).
-  plus seeded random larger graphs (4..8 ids) judged by the same TLA+ Judge.
+  plus seeded random larger graphs (4..8 ids) judged by the same TLA+ Judge, and deep chains / deep DAGs (up to 300
+  relations on one DFS path) whose shape TLC chooses and expands (ChildFirstGenDeep.tla).
 """
 import concurrent.futures as cf
 import json, os, random, re, time
@@ -24,11 +25,15 @@ MC_THOROUGH = ["ChildFirst_mc_t_stops3.cfg", "ChildFirst_mc_t_stops4.cfg", "Chil
                "ChildFirst_mc_t_all2.cfg", "ChildFirst_mc_t_mixed3.cfg", "ChildFirst_live_t.cfg",
                "ChildFirst_live_t_going.cfg", "ChildFirst_live_t_unreduced.cfg"] + MC_QUICK[:1]
 MC_DEVIATION = "ChildFirst_live_nodone.cfg"
+# ChildFirstLemmas: the cheap Judge forms (AcyclicK, J_ChildrenFirstD) equal the literal ones on every small graph x sequence
+LEMMAS_QUICK = ["ChildFirstLemmas_q.cfg"]
+LEMMAS_THOROUGH = ["ChildFirstLemmas_q.cfg", "ChildFirstLemmas_t4.cfg", "ChildFirstLemmas_tm.cfg"]
 
 # (gen cfg, slices)
-GEN_QUICK = [("ChildFirstGen_q_flat3.cfg", 1), ("ChildFirstGen_q_mixed2.cfg", 1), ("ChildFirstGen_q_sample3.cfg", 1)]
+GEN_QUICK = [("ChildFirstGen_q_flat3.cfg", 1), ("ChildFirstGen_q_mixed2.cfg", 1), ("ChildFirstGen_q_sample3.cfg", 1),
+             ("ChildFirstGenDeep_q.cfg", 1)]
 GEN_THOROUGH = [("ChildFirstGen_t_flat3.cfg", 4), ("ChildFirstGen_t_bad3.cfg", 1), ("ChildFirstGen_t_mixed2.cfg", 2),
-                ("ChildFirstGen_t_sample3.cfg", 1), ("ChildFirstGen_t_flat4.cfg", 1)]
+                ("ChildFirstGen_t_sample3.cfg", 1), ("ChildFirstGen_t_flat4.cfg", 1), ("ChildFirstGenDeep_t.cfg", 1)]
 
 
 def _shards(items, n):
@@ -83,7 +88,9 @@ def record_traces(ctx, cases, procs=4):
 def model_check(ctx, cfgs, workers, concurrent):
     def one(cfg):
         t0 = time.time() - ctx.t0
-        r = vlib.tlc(MOD, cfg, os.path.join(ctx.scratch, "mc-" + cfg), workers=workers, timeout=1500, heap="4g")
+        lemma = cfg.startswith("ChildFirstLemmas")
+        r = vlib.tlc("ChildFirstLemmas" if lemma else MOD, cfg, os.path.join(ctx.scratch, "mc-" + cfg),
+                     workers=1 if lemma else workers, timeout=1500, heap="4g")
         r.span = (round(t0, 1), round(time.time() - ctx.t0, 1))
         return cfg, r
     with cf.ThreadPoolExecutor(max_workers=concurrent) as ex:
@@ -95,6 +102,11 @@ def account_mc(ctx, res):
     for cfg, r in res:
         ctx.states += r.distinct
         ctx.transitions += r.generated
+        if cfg.startswith("ChildFirstLemmas"):
+            if r.rc != 0 or '<<"LEMMAS"' not in r.out:
+                raise vlib.Infra("lemma check %s failed (rc=%s):\n%s" % (cfg, r.rc, r.out[-4000:]))
+            ctx.tlc_runs.append({"module": "ChildFirstLemmas", "cfg": cfg, "wall_s": round(r.wall, 1), "rc": r.rc})
+            continue
         ctx.tlc_runs.append({"module": MOD, "cfg": cfg, "distinct": r.distinct, "generated": r.generated,
                              "wall_s": round(r.wall, 1), "span_s": list(getattr(r, "span", ())), "rc": r.rc})
         if cfg == MC_DEVIATION:
@@ -116,7 +128,7 @@ def generate(ctx, gens):
     def one(job):
         cfg, name, text = job
         out = os.path.join(ctx.scratch, "gen-" + name + ".ndjson")
-        r = vlib.tlc("ChildFirstGen", name, os.path.join(ctx.scratch, "g-" + name), env={"OUT": out}, workers=1,
+        r = vlib.tlc(cfg.split("_")[0], name, os.path.join(ctx.scratch, "g-" + name), env={"OUT": out}, workers=1,
                      timeout=1200, args=["-seed", str(ctx.seed)], files={name: text})
         if r.rc != 0:
             raise vlib.Infra("generation %s failed rc=%s:\n%s" % (name, r.rc, r.out[-4000:]))
@@ -128,11 +140,12 @@ def generate(ctx, gens):
         res = list(ex.map(one, jobs))
     cases, per = [], {}
     for cfg, r, cs in res:
-        ctx.tlc_runs.append({"module": "ChildFirstGen", "cfg": cfg, "cases": len(cs), "wall_s": round(r.wall, 1), "rc": r.rc})
+        ctx.tlc_runs.append({"module": cfg.split("_")[0], "cfg": cfg, "cases": len(cs), "wall_s": round(r.wall, 1), "rc": r.rc})
         per[cfg] = per.get(cfg, 0) + len(cs)
         cases += cs
     if not cases:
         raise vlib.Infra("generation produced no cases")
+    random.Random(ctx.seed).shuffle(cases)      # spread the expensive (deep) cases over the harness / judge shards
     return cases, per
 
 
@@ -318,7 +331,7 @@ def run(ctx):
         "ReducedSpec (producer-local steps explored alone) is used for the large instances; Spec and ReducedSpec are both checked on the small ones",
     ]
     vlib.go_build("c14")
-    mc_cfgs = [MC_DEVIATION] + (MC_QUICK if q else MC_THOROUGH)
+    mc_cfgs = [MC_DEVIATION] + (LEMMAS_QUICK + MC_QUICK if q else LEMMAS_THOROUGH + MC_THOROUGH)
     pool = cf.ThreadPoolExecutor(max_workers=1)
     mc_future = pool.submit(model_check, ctx, mc_cfgs, 2 if q else 4, 4 if q else 3)
 
@@ -330,7 +343,7 @@ def run(ctx):
     T("execute")
     for c in cases:
         key = {"hist": c["hist"], "req": c["req"], "bad": c["bad"]}
-        ctx.note_case(key, nontrivial=len(c["plans"]) >= 7)
+        ctx.note_case(key, nontrivial=len(c["plans"]) >= 7 or "shape" in c)
     nruns = sum(len(r["got"]) for r in recs)
     ctx.evaluations += nruns - len(cases)
     ctx.samples = [recs[len(recs) // 3], recs[2 * len(recs) // 3]]
@@ -341,7 +354,7 @@ def run(ctx):
         return _finish_mc(ctx, mc_future, pool, T)
 
     # ---- seeded random larger graphs (4..8 ids), same Judge
-    nrand = 2000 if q else 20000
+    nrand = 2000 if q else 15000
     rrecs = execute_random(ctx, nrand)
     rcases = [r["case"] for r in rrecs]
     for c in rcases:
@@ -358,7 +371,7 @@ def run(ctx):
     # ---- C -> S
     judge.first = True
     judge.divs = []
-    trace_stage(ctx, cases, 600 if q else 6000, judge)
+    trace_stage(ctx, cases, 600 if q else 5000, judge)
 
     # ---- design level
     T("traces (%d validated)" % ctx.traces)
